@@ -7,13 +7,10 @@ from vp.farm import Case
 from vp.gen import rvs as R
 from vp.gen.rvs import Mismatch, NotJudged, Ref
 
-SPECIALS = ["trailing", "fill-template", "zero-variance", "join-symbols", "add-dup"]
+SPECIALS = ["trailing", "zero-variance"]
 
 K_TRAILING = "C11/unjoin-moves-trailing-variable"
-K_FILL_TEMPLATE = "C11/join-fill-beats-name-template"
 K_ZERO_VAR = "C11/join-fill-overwrites-zero-variance"
-K_JOIN_SYMBOLS = "C11/join-rejects-symbols"
-K_ADD_DUP = "C11/add-accepts-duplicate-name"
 
 
 # --------------------------------------------------------------------------------------- materialisation
@@ -87,21 +84,14 @@ def gen_join(rng, ref, special):
     lvl = rng.choice(sorted(by_level, key=lambda k: -len(by_level[k]))[:2])
     pool = by_level[lvl]
     k = min(len(pool), rng.choice([1, 2, 2, 2, 2, 3, 3, 4]))
-    if special in ("fill-template", "join-symbols") and len(pool) >= 2:
-        k = max(k, 2)
     inds = rng.sample(pool, k)
     if rng.random() < 0.6:
         inds = [n for n in ref.names() if n in inds]
-    if special == "join-symbols":
-        op["inds"] = inds
-        op["as"] = rng.choice(["symbols", "mixed"]) if len(inds) > 1 else "symbols"
-        return op
     r = rng.random()
     templ = False
-    if special == "fill-template":
-        templ = True
-        op["fill"] = rng.choice([0.1, 0.05, 1, {"sym": "CFILL"}])
-    elif r < 0.45:
+    # join gets str names only, and fill != 0 is never combined with name_template: the property states
+    # nothing about symbols as indices or about the precedence of the two options
+    if r < 0.45:
         op["fill"] = 0
     elif r < 0.5:
         op["fill"] = 0.0
@@ -151,8 +141,8 @@ def fresh(rng, ref, k, eps=False):
     return rng.sample(pool, k) if len(pool) >= k else None
 
 
-def gen_other(rng, ref, dup=False):
-    """A small collection to concatenate."""
+def gen_other(rng, ref):
+    """A small collection to concatenate (fresh names only: uniqueness of names belongs to C06)."""
     other = Ref()
     nb = rng.choice([1, 1, 2])
     for _ in range(nb):
@@ -164,8 +154,6 @@ def gen_other(rng, ref, dup=False):
         names = fresh(rng, tmp, k, eps)
         if names is None:
             break
-        if dup and not other.blocks:
-            names[rng.randrange(len(names))] = rng.choice(ref.names())
         lvl = "RUV" if eps else rng.choice(["IIV", "IIV", "IOV"])
         other.blocks.append(names)
         for n in names:
@@ -180,7 +168,7 @@ def gen_op(rng, ref, special=None):
     if special in ("trailing",):
         g = rng.choice([gen_join, gen_unjoin])
         return g(rng, ref, special)
-    if special in ("fill-template", "zero-variance", "join-symbols"):
+    if special == "zero-variance":
         for _ in range(20):  # exactly one listed construct: not the trailing-variable one as well
             op = gen_join(rng, ref, special)
             if op is None:
@@ -193,14 +181,6 @@ def gen_op(rng, ref, special=None):
             if not _finding_trailing(ref, op["inds"], new):
                 return op
         return None
-    if special == "add-dup":
-        o = gen_other(rng, ref, dup=True)
-        if o is None:
-            return None
-        form = rng.choice(["dist", "list", "rvs", "radd_dist", "radd_list"])
-        if len(o.blocks) > 1 and form in ("dist", "radd_dist"):
-            form = "list"
-        return {"op": "add", "form": form, "other": o}
     for _ in range(20):
         kind = rng.choices(
             ["join", "unjoin", "getitem_list", "getitem_slice", "read", "subs", "add", "replace", "views"],
@@ -245,10 +225,9 @@ def gen_op(rng, ref, special=None):
                     old = rng.choice(names)
                     if old in op["rename"]:
                         continue
-                    if rng.random() < 0.06 and len(names) > 1:
-                        new = rng.choice([n for n in names if n != old])
-                    else:
-                        new = "R_" + old + rng.choice(["", "X", "_2"])
+                    new = "R_" + old + rng.choice(["", "X", "_2"])
+                    if new in names or new in op["rename"].values():
+                        continue  # renames onto an existing name are not generated (uniqueness is C06)
                     op["rename"][old] = new
                 else:
                     old = rng.choice(psyms)
@@ -454,10 +433,7 @@ def delta_trailing(ref, op, inds):
 
 
 def do_join(c, rvs, ref, op):
-    from pharmpy.basic import Expr  # noqa: F401
-
     fill = fill_sympy(op.get("fill", 0))
-    has_expr = op["as"] in ("symbols", "mixed")
     try:
         R.ref_join(ref, op["inds"], fill, op.get("template"), op.get("pnames"))
     except NotJudged:
@@ -466,18 +442,7 @@ def do_join(c, rvs, ref, op):
         except Exception:
             pass
         raise
-    try:
-        res = call_join(rvs, op)
-    except KeyError as e:
-        key = None
-        if has_expr:
-            try:
-                check_join_result(Case(), call_join(rvs, op, form="list"), ref, op, fill)
-                key = K_JOIN_SYMBOLS
-            except Exception:
-                pass
-        c.violate(key, f"{render_op(op)} raised KeyError: {e} although every variable exists", None)
-        raise Stop()
+    res = call_join(rvs, op)
     try:
         return check_join_result(c, res, ref, op, fill)
     except Mismatch as m:
@@ -486,15 +451,6 @@ def do_join(c, rvs, ref, op):
         if m.fact == "order-not-needed" and R.trailing_pattern(ref, op["inds"]) and \
                 delta_trailing(ref, op, op["inds"]):
             key = K_TRAILING
-        elif op.get("template") and not R.is_zero(fill) and m.fact in ("covariance", "covariance_matrix",
-                                                                        "return", "variance"):
-            # delta: the same join with fill=0 (the template alone)
-            try:
-                op0 = dict(op, fill=0)
-                check_join_result(Case(), call_join(rvs, op0), ref, op0, R.ZERO)
-                key = K_FILL_TEMPLATE
-            except Exception:
-                pass
         elif zero_var and not R.is_zero(fill) and m.fact in ("variance", "covariance_matrix"):
             try:
                 op0 = dict(op, fill=0)
@@ -524,17 +480,7 @@ def do_subs(c, rvs, ref, op):
         d[key] = v
     psub = {sympy.Symbol(o): _psub_value(v, False) for o, v in op["psub"].items()}
     new = R.ref_subs(ref, op["rename"], psub)
-    dup = len(set(new.names())) != len(new.names())
-    try:
-        out = rvs.subs(d)
-    except ValueError as e:
-        if dup:
-            c.hit("refusal:rename-to-existing-name")
-            return rvs, ref
-        raise
-    if dup:
-        raise Mismatch("names", f"subs produced duplicate names {out.names} without refusing (create() documents "
-                                f"that names must be unique)")
+    out = rvs.subs(d)
     R.compare(c, out, new, expected_order=new.names())
     return out, new
 
@@ -543,42 +489,17 @@ def do_add(c, rvs, ref, op):
     other = op["other"]
     form = op["form"]
     ro = R.build_rvs(other)
-    dup = bool(set(other.names()) & set(ref.names()))
-
-    def call(ro_):
-        if form == "dist":
-            return rvs + ro_[0]
-        if form == "list":
-            return rvs + [ro_[i] for i in range(len(ro_))]
-        if form == "rvs":
-            return rvs + ro_
-        if form == "radd_dist":
-            return ro_[0] + rvs
-        return [ro_[i] for i in range(len(ro_))] + rvs
-
+    if form == "dist":
+        out = rvs + ro[0]
+    elif form == "list":
+        out = rvs + [ro[i] for i in range(len(ro))]
+    elif form == "rvs":
+        out = rvs + ro
+    elif form == "radd_dist":
+        out = ro[0] + rvs
+    else:
+        out = [ro[i] for i in range(len(ro))] + rvs
     left_first = form in ("dist", "list", "rvs")
-    try:
-        out = call(ro)
-    except ValueError:
-        if dup:
-            c.hit("refusal:add-duplicate-name")
-            return rvs, ref
-        raise
-    if dup:
-        # delta: the same concatenation with the clashing name replaced by a fresh one
-        key = None
-        try:
-            clash = sorted(set(other.names()) & set(ref.names()))
-            o2 = R.ref_subs(other, {n: "FRESH_" + n for n in clash}, {})
-            out2 = call(R.build_rvs(o2))
-            n2 = R.ref_concat(ref, o2) if left_first else R.ref_concat(o2, ref)
-            R.compare(Case(), out2, n2, expected_order=n2.names())
-            key = K_ADD_DUP
-        except Exception:
-            pass
-        c.violate(key, f"{form} concatenation accepted a second variable named {clash}: names {out.names} "
-                       f"(RandomVariables.create refuses: 'Names of random variables must be unique')", None)
-        raise Stop()
     new = R.ref_concat(ref, other) if left_first else R.ref_concat(other, ref)
     R.compare(c, out, new, expected_order=new.names())
     return out, new
